@@ -6,11 +6,18 @@ from bounded.common import quiet
 ELS = ['C', 'N', 'O', 'H', 'Zr', 'Cl']
 
 
-def make_doc(n_atoms, bonds, ids, rnd):
+def make_doc(n_atoms, bonds, ids, rnd, geometry=None):
     atoms = []
     for i in range(n_atoms):
-        atoms.append((ids[i], ELS[rnd.randrange(len(ELS))], round(rnd.uniform(-50, 50), 5), round(rnd.uniform(-1e3, 1e3), 4),
-                      rnd.choice([round(rnd.uniform(-5, 5), 6), -2.5e-05, 1.5e+17, 3e-07])))
+        if geometry == 'compact':
+            # a molecule-sized geometry: atoms 0.9 - 1.5 A from their neighbours (whether or not the document lists bonds between them)
+            atoms.append((ids[i], ELS[rnd.randrange(len(ELS))], round(1.1 * i + rnd.uniform(-0.1, 0.1), 5), round(rnd.uniform(-0.3, 0.3), 4), round(rnd.uniform(-0.3, 0.3), 6)))
+        elif geometry == 'origin':
+            # every coordinate zero (a single atom at the origin; several atoms written at the origin), in various spellings of zero
+            atoms.append((ids[i], ELS[rnd.randrange(len(ELS))], 0.0, [0.0, -0.0][i % 2], 0.0))
+        else:
+            atoms.append((ids[i], ELS[rnd.randrange(len(ELS))], round(rnd.uniform(-50, 50), 5), round(rnd.uniform(-1e3, 1e3), 4),
+                          rnd.choice([round(rnd.uniform(-5, 5), 6), -2.5e-05, 1.5e+17, 3e-07])))
     lines = ['<?xml version="1.0" encoding="UTF-8"?>', '<molecule xmlns="http://www.xml-cml.org/schema">'.replace(' xmlns="http://www.xml-cml.org/schema"', ''), ' <atomArray>']
     for a in atoms:
         lines.append('  <atom id="%s" elementType="%s" x3="%r" y3="%r" z3="%r"/>' % a)
@@ -51,7 +58,7 @@ def build(spec):
     pairs = [(i, j) for i in range(n) for j in range(n) if i != j]
     rnd.shuffle(pairs)
     bonds = [(i, j, rnd.choice([1, 2, 3])) for (i, j) in pairs[:spec['n_bonds']]] if n > 1 else []
-    text, atoms = make_doc(n, bonds, ids, rnd)
+    text, atoms = make_doc(n, bonds, ids, rnd, spec.get('geometry'))
     return text, atoms, bonds
 
 
@@ -116,6 +123,8 @@ def replay(inp):
         msg = check_rewrite()
         return (msg is not None), (msg or 'reloading a rewritten path reflects the file')
     spec = dict(n_atoms=int(inp.get('n_atoms', 1)), n_bonds=int(inp.get('n_bonds', 0)), scheme=inp.get('scheme', 'seq'), seed=inp.get('seed', 0))
+    if inp.get('geometry'):
+        spec['geometry'] = inp['geometry']
     msg = check(spec)
     return (msg is not None), (msg or 'document loads faithfully')
 
@@ -132,6 +141,17 @@ def run(rec, tier, seed):
                 "strings, case-distinguished, bare numbers}, signed coordinates of varied magnitude; loaded from StringIO, from a path via Atoms.load and from an open file; "
                 "compared with the document. distinct = specs; non-trivial = all")
     seeds = range(2) if tier == 'quick' else range(8)
+    # molecule-sized geometries with few or no bond entries, and documents whose coordinates are all zero
+    for n in range(1, 6):
+        for nb in (0, 1):
+            for geometry in ('compact', 'origin'):
+                if n == 1 and nb:
+                    continue
+                spec = dict(gen_spec(n, nb, 'seq', seed * 100 + 50 + n), geometry=geometry)
+                msg = check(spec)
+                rec.case(repr(sorted(spec.items())), group='geometry')
+                if msg:
+                    rec.fail('cml', 'load_cml', "%s on %r" % (msg, spec), spec, 'C16/load_cml/post')
     for n in range(1, 7):
         for nb in sorted({0, 1, min(n * (n - 1), 3), min(n * (n - 1), 6)}):
             if n == 1 and nb > 0:
